@@ -352,6 +352,33 @@ def r07_5(ctx, rep):
         rep.ob(R, TREE + ":" + fname, "stage order", order_ok, "stages must run in the order %s" % " -> ".join(stages))
 
 
+@SPEC.rule(
+    "R07.6",
+    "flatten_extends is idempotent on its own result: the InstanceClass it returns carries no extends clauses (it is "
+    "created without `extends=` and `.extends` is never assigned) — build_instance_tree passes InstanceClasses through "
+    "flatten_extends again, and a kept extends list would merge the base classes' equations a second time",
+)
+def r07_6(ctx, rep):
+    R = "R07.6"
+    fn = ctx.func(TREE, "flatten_extends", R)
+    tgt = _alloc_var(fn, "InstanceClass")
+    if tgt is None:
+        raise MechanismMissing(R, "InstanceClass allocation not found in flatten_extends")
+    kw = []
+    for n in walk_local(fn):
+        if isinstance(n, ast.Assign) and isinstance(n.value, ast.Call) and (call_name(n.value) or "").endswith("InstanceClass"):
+            kw = [k.arg for k in n.value.keywords]
+    assigned = [norm(n) for n in walk_local(fn) if (isinstance(n, (ast.Assign, ast.AugAssign)) and any(norm(t) == tgt + ".extends" for t in (n.targets if isinstance(n, ast.Assign) else [n.target])))
+                or (isinstance(n, ast.Call) and norm(n.func).startswith(tgt + ".extends."))]
+    rep.ob(R, TREE + ":flatten_extends", "result has no extends", "extends" not in kw and not assigned,
+           "the flattened instance class keeps extends clauses (%s): when it is flattened again (nested class used as a component type) "
+           "the inherited equations are added twice" % (["extends= keyword"] * ("extends" in kw) + assigned))
+    # and a re-run on an InstanceClass must not lose its environment
+    keep = any(isinstance(n, ast.If) and "isinstance(%s, ast.InstanceClass)" % fn.args.args[0].arg in norm(n.test)
+               and any(norm(s_).startswith(tgt + ".modification_environment =") for s_ in n.body) for n in walk_local(fn))
+    rep.ob(R, TREE + ":flatten_extends", "instance environment kept", keep, "an InstanceClass passed in keeps its modification_environment")
+
+
 # -- seeded variants ---------------------------------------------------------
 from ._mut import delete_stmt_where, replace_in_func  # noqa: E402
 
@@ -448,3 +475,15 @@ def _m10(mod):
         return True
 
     return mod if replace_in_func(mod, "flatten", edit) else None
+
+
+@SPEC.mutant("instance class keeps the extends list", TREE, "R07.6", "no extends")
+def _m11(mod):
+    def edit(fn):
+        for n in ast.walk(fn):
+            if isinstance(n, ast.Call) and (call_name(n) or "").endswith("InstanceClass"):
+                n.keywords.append(ast.keyword(arg="extends", value=ast.parse("orig_class.extends", mode="eval").body))
+                return True
+        return False
+
+    return mod if replace_in_func(mod, "flatten_extends", edit) else None
